@@ -631,7 +631,7 @@ func (a *Analysis) primShape(fn *ssa.Function, flip bool) ([]string, error) {
 	}
 	var out []string
 	for _, p := range paths {
-		s := pathShape(p)
+		s := wireShape(p)
 		if flip {
 			s = flipOrder(s)
 		}
@@ -712,6 +712,73 @@ func (r *renumber) apply(s string) string {
 			continue
 		}
 		b.WriteByte(c)
+	}
+	return b.String()
+}
+
+// wireShape renders what a path does to the wire and how it ends – the atoms with their number types, byte orders,
+// length expressions, repetition structure and failure points, the results' provenance – without branch conditions,
+// loop-variable names or event numbering, so that two spellings of the same behaviour render alike.
+func wireShape(p *Path) string {
+	ren := newRenumber()
+	var rec func(evs []*Event) string
+	rec = func(evs []*Event) string {
+		var s []string
+		for _, e := range evs {
+			if !countsAsWire(e) && e.Kind != EvPatch && e.Kind != EvCalc {
+				continue
+			}
+			t := e.String()
+			if e.Kind == EvRep || e.Kind == EvAlt {
+				var arms []string
+				for _, arm := range e.Iter {
+					arms = append(arms, rec(arm.Events))
+				}
+				sort.Strings(arms)
+				arms = dedupe(arms)
+				if e.Kind == EvRep {
+					t = fmt.Sprintf("REP(count=%s,partial=%v){%s}", e.Count.Pretty(), e.Partial, strings.Join(arms, " | "))
+				} else {
+					t = "ALT{" + strings.Join(arms, " | ") + "}"
+				}
+			}
+			s = append(s, t)
+		}
+		return strings.Join(s, " · ")
+	}
+	var rets []string
+	for _, r := range p.Ret {
+		if r.Op == "nonnil" {
+			rets = append(rets, "err")
+		} else {
+			rets = append(rets, r.Pretty())
+		}
+	}
+	out := pathKind(p) + " ; " + rec(p.Events) + " ; ret[" + strings.Join(rets, ", ") + "]"
+	return ren.apply(normLoopVars(out))
+}
+
+// normLoopVars replaces "loopvar#N:name" / "loopout" spellings by a neutral token.
+func normLoopVars(s string) string {
+	var b strings.Builder
+	for i := 0; i < len(s); {
+		if strings.HasPrefix(s[i:], "loopvar#") {
+			j := i + len("loopvar#")
+			for j < len(s) && s[j] >= '0' && s[j] <= '9' {
+				j++
+			}
+			if j < len(s) && s[j] == ':' {
+				j++
+				for j < len(s) && (s[j] == '.' || s[j] == '_' || s[j] >= 'a' && s[j] <= 'z' || s[j] >= 'A' && s[j] <= 'Z' || s[j] >= '0' && s[j] <= '9') {
+					j++
+				}
+			}
+			b.WriteString("lv")
+			i = j
+			continue
+		}
+		b.WriteByte(s[i])
+		i++
 	}
 	return b.String()
 }
